@@ -150,6 +150,9 @@ func (s *c18srv) hook(fs *fakelfs.Server, w http.ResponseWriter, r *http.Request
 		if fl[n].RetryAfter != "" {
 			w.Header().Set("Retry-After", fl[n].RetryAfter)
 		}
+		if fl[n].Status == 401 {
+			w.Header().Set("Lfs-Authenticate", `Basic realm="C18"`)
+		}
 		writeBody(w, fl[n].Status, []byte(fmt.Sprintf(`{"message":"injected fault %d"}`, fl[n].Status)))
 		return true
 	}
